@@ -44,10 +44,10 @@ def load_plugin(pid):
 # ----------------------------------------------------------------------------------------------
 # extraction (T1): every plugin may regenerate Coq files from /repo
 # ----------------------------------------------------------------------------------------------
-def run_extracts(log):
-    """Run every plugin's extract(); returns {pid: error or None}."""
+def run_extracts(log, only=None):
+    """Run plugins' extract() (all of them, or those in `only`); returns {pid: error or None}."""
     status = {}
-    for pid in prop_ids():
+    for pid in (prop_ids() if only is None else only):
         try:
             pl = load_plugin(pid)
         except Exception as e:  # plugin itself broken: report for that property only
@@ -160,12 +160,81 @@ def scan_sources(files):
     return n, bad, names
 
 
-def build_target(rel_v, timeout=1500):
-    vo = rel_v[:-2] + ".vo"
+def _needs_build(rel, deps_direct):
+    v = os.path.join(COQ, rel)
+    vo = v[:-2] + ".vo"
+    if not os.path.exists(vo):
+        return True
+    t = os.path.getmtime(vo)
+    if os.path.getmtime(v) > t:
+        return True
+    for d in deps_direct:
+        dvo = os.path.join(COQ, d[:-2] + ".vo")
+        if not os.path.exists(dvo) or os.path.getmtime(dvo) > t:
+            return True
+    return False
+
+
+def direct_deps(rel):
+    try:
+        src = strip_comments(open(os.path.join(COQ, rel)).read())
+    except FileNotFoundError:
+        return []
+    out = []
+    for m in REQ.finditer(src + " "):
+        for mod in m.group(1).split():
+            p = mod.replace(".", "/") + ".v"
+            if os.path.exists(os.path.join(COQ, p)) and p not in out and p != rel:
+                out.append(p)
+    return out
+
+
+def build_targets(rels, timeout=1500):
+    """Incremental full-.vo build of the given files and everything they depend on (coqc, never -vos).
+    Files are compiled level by level (dependencies first), each level in parallel."""
+    import concurrent.futures as cf
+    t0 = time.time()
+    closure = []
+    for r in rels:
+        deps_of(r, closure)
+    dd = {r: direct_deps(r) for r in closure}
+    level = {}
+
+    def lv(r, stack=()):
+        if r in level:
+            return level[r]
+        if r in stack:
+            raise RuntimeError("dependency cycle at " + r)
+        level[r] = 1 + max([lv(d, stack + (r,)) for d in dd[r]] + [-1])
+        return level[r]
+    for r in closure:
+        lv(r)
+    out_all, rc_all = [], 0
     with BuildLock():
-        ensure_makefile()
-        rc, out, dt = lib.run(["make", "-j", str(lib.NPROC), vo], cwd=COQ, timeout=timeout)
-    return rc, out, dt
+        for L_ in sorted(set(level.values())):
+            todo = [r for r in closure if level[r] == L_ and _needs_build(r, dd[r])]
+            if not todo:
+                continue
+
+            def one(r):
+                return r, lib.run(["coqc"] + lib.COQFLAGS + [os.path.join(COQ, r)], timeout=timeout, cwd=COQ)
+            with cf.ThreadPoolExecutor(max_workers=lib.NPROC) as ex:
+                for r, (rc, out, dt) in ex.map(one, todo):
+                    out_all.append("coqc %s rc=%d %.1fs" % (r, rc, dt))
+                    if rc != 0:
+                        rc_all = rc
+                        out_all.append(out)
+                        try:
+                            os.remove(os.path.join(COQ, r[:-2] + ".vo"))
+                        except OSError:
+                            pass
+            if rc_all:
+                break
+    return rc_all, "\n".join(out_all), time.time() - t0
+
+
+def build_target(rel_v, timeout=1500):
+    return build_targets([rel_v], timeout)
 
 
 def print_assumptions(pid, prop_rel, names, workdir):
@@ -273,7 +342,7 @@ def safe_impl(pl, case):
 
 
 def write_replay(pid, payload):
-    d = os.path.join(VERIF, "replay")
+    d = os.path.join(lib.OUT, "replay")
     os.makedirs(d, exist_ok=True)
     path = os.path.join(d, "%s-%s.json" % (pid, lib.sha(payload)))
     with open(path, "w") as f:
@@ -292,10 +361,10 @@ def check(pid, tier, seed):
     broken = []          # broken proof obligations / correspondence (strings)
     assumptions = {}
     obligations = discharged = 0
-    make_cmd = "make -C coq -j%d %s.vo  (full .vo build, coqc 8.16.1) + coqc Print Assumptions" % (lib.NPROC, pl.COQ_PROP[:-2])
+    make_cmd = "coqc -Q coq PV <every file %s depends on, dependencies first> (full .vo, Coq 8.16.1; harness/driver.py build_targets) + coqc Print Assumptions" % pl.COQ_PROP
     try:
         # 1. extraction
-        ext_status = run_extracts(log)
+        ext_status = run_extracts(log, [pid] + list(getattr(pl, 'DEPENDS_ON_EXTRACT', [])))
         for p_, st in ext_status.items():
             if st and (p_ == pid or p_ in getattr(pl, "DEPENDS_ON_EXTRACT", [])):
                 broken.append("extract:%s: %s" % (p_, st))
@@ -304,8 +373,8 @@ def check(pid, tier, seed):
         obligations, forbidden, names = scan_sources(files)
         if forbidden:
             broken.append("forbidden constructs in development: " + "; ".join(forbidden[:5]))
-        rc, out, dt = build_target(pl.COQ_PROP)
-        log.append("make rc=%d in %.1fs" % (rc, dt))
+        rc, out, dt = build_targets([pl.COQ_PROP] + [m.replace('.', '/') + '.v' for m in pl.CORR_REQUIRE])
+        log.append("build rc=%d in %.1fs" % (rc, dt))
         if rc != 0:
             m = re.search(r'File "([^"]+)", line (\d+).*?\n(Error:.*?)(?:\n\n|\Z)', out, re.S)
             where = ("%s:%s %s" % (m.group(1), m.group(2), " ".join(m.group(3).split())[:400])) if m else out[-600:]
@@ -456,8 +525,8 @@ def check(pid, tier, seed):
             "wall_s": round(time.time() - t0, 2),
             "violations": len({sig_key(v["signature"]) for _, v in new_viols}) + (1 if (broken and not new_viols) else 0),
         }
-        os.makedirs(os.path.join(VERIF, "evidence"), exist_ok=True)
-        with open(os.path.join(VERIF, "evidence", pid + ".json"), "w") as f:
+        os.makedirs(os.path.join(lib.OUT, "evidence"), exist_ok=True)
+        with open(os.path.join(lib.OUT, "evidence", pid + ".json"), "w") as f:
             json.dump(ev, f, indent=1, default=str)
         if os.environ.get("VERIF_VERBOSE"):
             print("\n".join(log))
@@ -505,11 +574,19 @@ def setup():
     for k, v in st.items():
         if v:
             print("extract", k, v)
-    with BuildLock():
-        ensure_makefile()
-        rc, out, dt = lib.run(["make", "-j", str(lib.NPROC)], cwd=COQ, timeout=3000)
-    print(out[-3000:] if rc else "coq build ok in %.0fs" % dt)
-    return rc
+    try:
+        ensure_makefile()   # _CoqProject / Makefile for humans; the checks use the built-in incremental builder
+    except Exception as e:
+        print("note: coq_makefile:", e)
+    props = sorted(p for p in project_files() if p.startswith("props/"))
+    for pid in prop_ids():
+        try:
+            props += [m.replace('.', '/') + '.v' for m in load_plugin(pid).CORR_REQUIRE]
+        except Exception as e:
+            print("plugin", pid, "not loadable:", e)
+    rc, out, dt = build_targets(props, timeout=3000)
+    print(out[-6000:] if rc else "coq build ok in %.0fs (%d property files)" % (dt, len(props)))
+    return 1 if rc else 0
 
 
 def gen_manifest():
